@@ -72,9 +72,16 @@ func genProdCase(t *rapid.T) prodCase {
 	case "Kneser", "BipartiteKneser":
 		c.A = small("n", 0, 6)
 		c.B = small("k", 0, c.A+1)
-		if c.Prod == "Kneser" && rare(t, "bigkneser", 6) {
-			c.A = small("bign", 33, 36) // beyond the table of small binomials
-			c.B = small("bigk", 1, 2)
+		if rare(t, "bigkneser", 6) {
+			// ground sets beyond the table of small binomials and around one and two machine words
+			c.A = rapid.SampledFrom([]int{33, 34, 35, 36, 62, 63, 64, 65, 66, 127, 128, 129}).Draw(t, "bign")
+			c.B = 1
+			if c.Prod == "Kneser" && c.A <= 36 || c.A <= 66 && rare(t, "k2", 4) {
+				c.B = small("bigk", 1, 2)
+			}
+			if c.Prod == "BipartiteKneser" {
+				c.B = rapid.SampledFrom([]int{1, c.A - 1, 0, c.A}).Draw(t, "bipk")
+			}
 		}
 		if c.Prod == "BipartiteKneser" && c.B > c.A {
 			c.B = c.A // n-k must be non-negative for the second side to exist
@@ -462,14 +469,14 @@ func checkProdCase(c prodCase, rec *Rec) error {
 	case "ComplementDense":
 		g := c.G.Model()
 		want = g.Complement()
-		in := reps(g)[c.Rep]
+		in := repOf(g, c.Rep)
 		err = build(func() { got = graph.ComplementDense(in) })
 	case "ComplementView":
 		g := c.G.Model()
 		d := denseOf(g)
 		var view graph.Graph
 		// reading a view must not disturb the graph underneath, whatever its representation, and reading it again gives the same
-		for bname, base := range map[string]graph.Graph{"dense": denseOf(g), "sparse": sparseOf(g), "dense-bytes": reps(g)["dense-bytes"]} {
+		for bname, base := range map[string]graph.Graph{"dense": denseOf(g), "sparse": sparseOf(g), "dense-bytes": repOf(g, "dense-bytes")} {
 			var v graph.Graph
 			if err = build(func() { v = graph.Complement(base) }); err != nil {
 				return err
@@ -506,11 +513,11 @@ func checkProdCase(c prodCase, rec *Rec) error {
 		return nil
 	case "InducedView":
 		g := c.G.Model()
-		under := denseOf(g)
-		var base graph.Graph = under
+		var under graph.EditableGraph = denseOf(g)
 		if c.Rep == "sparse" {
-			base = sparseOf(g)
+			under = sparseOf(g)
 		}
+		var base graph.Graph = under
 		V := append([]int{}, c.Ints...)
 		var view graph.Graph
 		if err = build(func() { view = graph.InducedSubgraph(base, V) }); err != nil {
@@ -522,7 +529,7 @@ func checkProdCase(c prodCase, rec *Rec) error {
 		if !eqInts(V, c.Ints) {
 			return fmt.Errorf("%s modified V", desc)
 		}
-		if c.Rep != "sparse" && len(c.Ints) >= 2 {
+		if len(c.Ints) >= 2 {
 			a, b := c.Ints[0], c.Ints[1]
 			if g.Has(a, b) {
 				under.RemoveEdge(a, b)
@@ -532,6 +539,25 @@ func checkProdCase(c prodCase, rec *Rec) error {
 				g.Add(a, b)
 			}
 			if err = sameAs(desc+" after editing the underlying graph", view, g.Induced(c.Ints)); err != nil {
+				return err
+			}
+			// the host gains a vertex joined to some vertices of V (as SplitEdge would do) and loses it again: the view keeps
+			// showing the subgraph induced on V
+			nb := []int{c.Ints[0]}
+			if c.Ints[1] != c.Ints[0] {
+				nb = append(nb, c.Ints[1])
+			}
+			sort.Ints(nb)
+			if p := try(func() { under.AddVertex(nb) }); p != nil {
+				return fmt.Errorf("%s: AddVertex on the host panicked: %v", desc, p)
+			}
+			if err = sameAs(desc+" after the underlying graph gained a vertex", view, g.Induced(c.Ints)); err != nil {
+				return err
+			}
+			if p := try(func() { under.RemoveVertex(under.N() - 1) }); p != nil {
+				return fmt.Errorf("%s: RemoveVertex on the host panicked: %v", desc, p)
+			}
+			if err = sameAs(desc+" after the underlying graph lost the new vertex again", view, g.Induced(c.Ints)); err != nil {
 				return err
 			}
 		}
@@ -548,7 +574,7 @@ func checkProdCase(c prodCase, rec *Rec) error {
 				}
 			}
 		}
-		in := reps(g)[c.Rep]
+		in := repOf(g, c.Rep)
 		err = build(func() { got = graph.LineGraphDense(in) })
 	case "SplitEdge", "Contract":
 		g := c.G.Model()
